@@ -185,7 +185,7 @@ func genC07u(t *rapid.T) c07uCase {
 		c.B = genPhoneBCD(t, 6, "b")
 	case "bcd2dec":
 		n := rapid.IntRange(1, 10).Draw(t, "n")
-		c.B = genPhoneBCD(t, n, "b")
+		c.B = genPhoneBytes(t, n, "b")
 	case "gbk":
 		c.S = genGBKText(t, 60, "s")
 	case "fill":
